@@ -136,6 +136,8 @@ async fn one_run(seed: u64, idx: u64, paths: Vec<ScionPath>, src: IsdAsn, dst: I
         per_dst: Mutex::new(Default::default()),
     });
     let scenario = r.below(5); // 0 plain, 1 stop during wait, 2 drop manager, 3 idle expiry, 4 failing retries
+    // scenario 4 is judged on completed lookups, so a short wall-clock bound suffices
+    let watchdog = if scenario == 4 { watchdog.min(Duration::from_secs(3)) } else { watchdog };
     if scenario == 4 {
         // lookups keep failing / coming back empty and are retried every few milliseconds; callers
         // keep arriving, some while a retry is in flight: each of them must be released
